@@ -66,21 +66,37 @@ const kvStall = 2 * time.Second
 func kvSetup(t *testing.T) {
 	kvOnce.Do(func() {
 		logx.Disable()
-		var err error
-		for i := range kvShards {
-			if kvShards[i], err = miniredis.Run(); err != nil {
-				t.Fatalf("miniredis shard: %v", err)
-			}
-			// warm the shared wrapper client of this address
-			if !redis.New(kvShards[i].Addr()).Ping() {
-				t.Fatalf("cannot reach shard %d", i)
-			}
-		}
-		if kvRefSrv, err = miniredis.Run(); err != nil {
-			t.Fatalf("miniredis reference: %v", err)
-		}
-		kvRef = red.NewClient(&red.Options{Addr: kvRefSrv.Addr()})
+		kvRenew(t)
 	})
+}
+
+// kvRenew puts fresh servers (new addresses) behind the store and the reference.
+// Used at start-up and after a stalled step: a command that timed out on the client
+// side may still be executed by the old server later; it must not reach the servers
+// of the following cases. The old servers are simply abandoned.
+func kvRenew(t *testing.T) {
+	var err error
+	if kvRefSrv != nil {
+		// addresses are never reused; closing the old servers also kills zombies
+		kvRef.Close()
+		go kvRefSrv.Close()
+		for _, m := range kvShards {
+			go m.Close()
+		}
+	}
+	for i := range kvShards {
+		if kvShards[i], err = miniredis.Run(); err != nil {
+			t.Fatalf("miniredis shard: %v", err)
+		}
+		// warm the shared wrapper client of this address
+		if !redis.New(kvShards[i].Addr()).Ping() {
+			t.Fatalf("cannot reach shard %d", i)
+		}
+	}
+	if kvRefSrv, err = miniredis.Run(); err != nil {
+		t.Fatalf("miniredis reference: %v", err)
+	}
+	kvRef = red.NewClient(&red.Options{Addr: kvRefSrv.Addr()})
 }
 
 type kvEnv struct {
@@ -302,6 +318,7 @@ func kvInterp(t *testing.T, c kvCase) (v kit.Verdict) {
 		if time.Since(t0) > kvStall {
 			e.classes["env:stalled-step"] = true
 			v.Excluded = true
+			kvRenew(t)
 			return v
 		}
 		if msg != "" {
